@@ -388,7 +388,8 @@ class Tempo(BaseAPIClass):
             end_time: float) -> Tuple[int, int]:
         """Return the number of steps required from start_step to reach
         end_time"""
-        end_step = int((end_time - self._start_time)/self._parameters.dt)
+        end_step = int(np.round(
+            (end_time - self._start_time)/self._parameters.dt, decimals=9))
         num_step = max(0, end_step - start_step)
         return num_step
 
@@ -954,7 +955,8 @@ class MeanFieldTempo(BaseAPIClass):
             end_time: float) -> Tuple[int, int]:
         """Return the number of steps required from start_step to reach
         end_time"""
-        end_step = int((end_time - self._start_time)/self._parameters.dt)
+        end_step = int(np.round(
+            (end_time - self._start_time)/self._parameters.dt, decimals=9))
         num_step = max(0, end_step - start_step)
         return num_step
 
